@@ -191,6 +191,17 @@ def binop(ev, t, opn, a, b, inplace, ctx):
         meta = ('elementwise', 'numpy.square', (a,))
     if meta is None and opn == 'Mult' and a.vid is not None and a.vid == b.vid and real_dtype(a):
         meta = ('elementwise', 'numpy.square', (a,))
+    if meta is None and opn == 'Mult':
+        # conj(x) * x  (either order, function or method form) is |x|^2
+        for u, v in ((a, b), (b, a)):
+            cj = conj_arg(u)
+            if cj is not None and cj.vid is not None and cj.vid == v.vid:
+                meta = ('abs2', v)
+    if meta is None and opn == 'Add':
+        # x.real ** 2 + x.imag ** 2 is |x|^2
+        pa, pb = square_of_part(a), square_of_part(b)
+        if pa is not None and pb is not None and {pa[0], pb[0]} == {'real', 'imag'} and pa[1].vid is not None and pa[1].vid == pb[1].vid:
+            meta = ('abs2', pa[1])
     return AV(kind=kind, deps=deps, alias=alias, shape=shape, sign=sign, norm=norm, dtype=dtype, meta=meta,
               vid=None)
 
@@ -1042,6 +1053,46 @@ reg('numpy.log numpy.log10 numpy.log2 numpy.angle numpy.cos numpy.sin numpy.tan 
     'numpy.nan_to_num numpy.negative scipy.special.ive scipy.special.hyp1f1 scipy.special.gammaln scipy.special.perm numpy.cumsum numpy.cumprod '
     'numpy.diff numpy.sort numpy.flip numpy.fft.fft numpy.fft.rfft numpy.fft.irfft scipy.special.factorial math.factorial numpy.isposinf', h_elementwise(None, dtype=None))
 reg('numpy.abs numpy.absolute', h_elementwise('abs', dtype='real'))
+def conj_arg(v):
+    m = v.meta
+    if isinstance(m, tuple) and m:
+        if m[0] == 'conj' and len(m) > 1:
+            return m[1]
+        if m[0] == 'elementwise' and m[1] in ('numpy.conj', 'numpy.conjugate') and m[2]:
+            return m[2][0]
+    return None
+
+
+def square_of_part(v):
+    """v == x.real ** 2 / x.imag ** 2  ->  ('real' | 'imag', x)"""
+    m = v.meta
+    if isinstance(m, tuple) and m and m[0] == 'elementwise' and m[1] == 'numpy.square' and m[2]:
+        mp = m[2][0].meta
+        if isinstance(mp, tuple) and mp and mp[0] == 'part_of' and mp[1] in ('real', 'imag'):
+            return mp[1], mp[2]
+    return None
+
+
+def abs2_base(v):
+    """the x of a value known to be |x|^2 elementwise: |x| ** 2, x ** 2 (x * x), conj(x) * x [.real], x.real ** 2 + x.imag ** 2"""
+    m = v.meta
+    if not (isinstance(m, tuple) and m):
+        return None
+    if m[0] == 'abs2':
+        return m[1]
+    if (m[0] == 'part_of' and m[1] == 'real') or (m[0] == 'elementwise' and m[1] == 'numpy.real' and m[2]):
+        inner = m[2] if m[0] == 'part_of' else m[2][0]
+        mi = inner.meta
+        return mi[1] if isinstance(mi, tuple) and mi and mi[0] == 'abs2' else None
+    if m[0] == 'elementwise' and m[1] == 'numpy.square' and m[2]:
+        base = m[2][0]
+        mb = base.meta
+        if isinstance(mb, tuple) and mb and mb[0] == 'elementwise' and mb[1] in ('numpy.abs', 'numpy.absolute') and mb[2]:
+            base = mb[2][0]
+        return base
+    return None
+
+
 def h_sqrt(ev, name, pos, kw, ctx, t):
     """sqrt(sum(|x|^2, axis=a, keepdims=True)) is the 2-norm of x along a, spelled out"""
     r = h_elementwise('sqrt')(ev, name, pos, kw, ctx, t)
@@ -1049,13 +1100,8 @@ def h_sqrt(ev, name, pos, kw, ctx, t):
     try:
         m = x.meta if x is not None else None
         if m and m[0] == 'reduce' and str(m[1]).endswith('sum') and isinstance(m[2], int) and m[3] is True:
-            sq = m[4]
-            ms = sq.meta
-            if ms and ms[0] == 'elementwise' and ms[1] in ('numpy.square',) and ms[2]:
-                base = ms[2][0]
-                mb = base.meta
-                if mb and mb[0] == 'elementwise' and mb[1] in ('numpy.abs', 'numpy.absolute') and mb[2]:
-                    base = mb[2][0]
+            base = abs2_base(m[4])
+            if base is not None:
                 if base.vid is not None:
                     na = m[2] if m[2] < 0 else (base.shape.neg_axis(m[2]) if base.shape is not None else None)
                     if na is not None:
